@@ -37,6 +37,46 @@ def pathsIter : Nat → St → List (Ref × List Int) → List (List Int) → Op
 
 def paths (fuel : Nat) (s : St) (f : Ref) : Option (List (List Int)) := pathsIter fuel s [(f, [])] []
 
+/-- the same iterator with every prefix kept in reverse (literals are consed on; a cube is reversed
+once, when it is yielded), so that a diagram of depth d costs O(d) per path instead of O(d²); the
+compiler uses it through `paths_eq_fast` (`@[csimp]`), the theorems are about `paths` -/
+def pathsIterFast : Nat → St → List (Ref × List Int) → List (List Int) → Option (List (List Int))
+  | 0, _, _, _ => none
+  | _ + 1, _, [], acc => some acc.reverse
+  | fuel + 1, s, (r, pr) :: rest, acc =>
+    if isZero r then pathsIterFast fuel s rest acc else
+    if isOne r then pathsIterFast fuel s rest (pr.reverse :: acc) else
+    let v : Int := (s.var r : Nat)
+    pathsIterFast fuel s ((s.lowNode r, (-v) :: pr) :: (s.highNode r, v :: pr) :: rest) acc
+
+def pathsFast (fuel : Nat) (s : St) (f : Ref) : Option (List (List Int)) := pathsIterFast fuel s [(f, [])] []
+
+theorem pathsIter_eq_fast (s : St) : ∀ (fuel : Nat) (stack : List (Ref × List Int)) (acc : List (List Int)),
+    pathsIter fuel s stack acc = pathsIterFast fuel s (stack.map (fun p => (p.1, p.2.reverse))) acc := by
+  intro fuel
+  induction fuel with
+  | zero => intro stack acc; rfl
+  | succ n ih =>
+    intro stack acc
+    cases stack with
+    | nil => rfl
+    | cons p rest =>
+      obtain ⟨r, pre⟩ := p
+      simp only [List.map_cons, pathsIter, pathsIterFast]
+      by_cases hz : isZero r = true
+      · simp only [hz, if_true]; exact ih rest acc
+      · simp only [hz]
+        by_cases ho : isOne r = true
+        · simp only [ho, if_true, List.reverse_reverse]; exact ih rest (pre :: acc)
+        · simp only [ho]
+          have := ih ((s.lowNode r, pre ++ [-((s.var r : Nat) : Int)]) :: (s.highNode r, pre ++ [((s.var r : Nat) : Int)]) :: rest) acc
+          simpa [List.reverse_append] using this
+
+@[csimp] theorem paths_eq_fast : @paths = @pathsFast := by
+  funext fuel s f
+  unfold paths pathsFast
+  simpa using pathsIter_eq_fast s fuel [(f, [])] []
+
 /-! ### sat_count (`BigUint` = `Nat`; memo per signed handle) -/
 
 abbrev CMemo := List (Ref × Nat)
